@@ -711,8 +711,12 @@ func (w *srvWorld) firstDefiniteCause() int {
 // ended (an explicit Stop returned, or WaitStatus returned).
 func (w *srvWorld) connEnded() int {
 	e := 1 << 30
-	if w.stopDone >= 0 {
-		e = w.stopDone
+	// (Stop() having returned is not it: Stop may merely request the shutdown)
+	for seq, ev := range w.r.Sim.Events {
+		if ev.Kind == "ch.close" && ev.Tag == w.sEnd.Name {
+			e = seq // the server has closed its channel
+			break
+		}
 	}
 	if w.waitSeq >= 0 && w.waitSeq < e {
 		e = w.waitSeq
